@@ -66,6 +66,12 @@ def gen_constants():
     return r.returncode == 0, r.stdout.strip()
 
 
+def gen_decisions():
+    """translate the small pure decision functions of /repo into Lean (tools/rs2lean.py)"""
+    r = run([sys.executable, os.path.join(VERIF, "tools", "rs2lean.py")])
+    return r.returncode == 0, r.stdout.strip()
+
+
 def lake_build(modules):
     """Returns (ok, output, failing theorem/decl names)."""
     with Lock("lake"):
@@ -328,6 +334,9 @@ def check(pid, tier, replay=None):
     ok, out = gen_constants()
     if not ok:
         broken.append(f"Copia.Gen.Constants (extractor: {out})")
+    ok, out = gen_decisions()
+    if not ok:
+        broken.append(f"Copia.Gen.Decisions (translator: {out})")
     # 2. proofs
     ok, out, failing = lake_build(cfg["modules"])
     proofs_ok = ok
@@ -431,7 +440,7 @@ def check(pid, tier, replay=None):
             "axioms used by the property theorems: " + ", ".join(sorted({a for v in thms.values() for a in v}) or ["none"]),
             "no native_decide / bv_decide / sorry / own axioms (source audit + #print axioms on every theorem)",
             "hand-written Lean model tied to the Rust code by the correspondence run of this check (generator quality bounds what it sees)",
-            "tools/gen_constants.py (regex extraction of constants from /repo into Copia/Gen/Constants.lean)",
+            "tools/gen_constants.py (regex extraction of constants from /repo into Copia/Gen/Constants.lean)", "tools/rs2lean.py (translator: Fingerprint::same, reconcile_path, needs_transfer, cas_decide → Copia/Gen/Decisions.lean; proved equal to the hand models in Lemmas/GenEq)",
         ] + cfg.get("trusted_base", []),
         "theorems": {k: v for k, v in sorted(thms.items())},
         "evaluations": corr.get("evaluations", 0),
